@@ -42,7 +42,44 @@ type SchedCase struct {
 	// fraction (written with and without trailing digits)
 	FutureLog    bool `json:"future_log,omitempty"`
 	CraftedTasks int  `json:"crafted_tasks,omitempty"`
+	// LongLog: that many repeated title events of one task are appended (a store that has
+	// seen hundreds of edits of a few items: far more events than live items)
+	LongLog int `json:"long_log_events,omitempty"`
 }
+
+// applyLongLog retitles one task and repeats that event n times in the log.
+func (w *World) applyLongLog(pre *Snapshot, n int) *Snapshot {
+	if n <= 0 {
+		return pre
+	}
+	ids := pre.SortedIDs()
+	if len(ids) == 0 {
+		return pre
+	}
+	r := Run(Cmd{Args: []string{"--json", "set", ids[0], "--title", "edited many times"}, Dir: w.Root})
+	if !r.OK() {
+		return pre
+	}
+	b := ReadLog(w.Root)
+	lines, rest := LogLines(b)
+	if rest != "" || len(lines) == 0 || !strings.Contains(lines[len(lines)-1], `"title"`) {
+		return pre
+	}
+	f, err := os.OpenFile(LogPath(w.Root), os.O_APPEND|os.O_WRONLY, 0o644)
+	if err != nil {
+		return pre
+	}
+	f.WriteString(strings.Repeat(lines[len(lines)-1]+"\n", n))
+	f.Close()
+	if post, err := TakeSnapshot(w.Root); err == nil {
+		return post
+	}
+	return pre
+}
+
+// schedLegacy tells the op generators that the store of the current case uses the legacy
+// log name.
+var schedLegacy bool
 
 var stampRe = regexp.MustCompile(`"(\d{4}-\d{2}-\d{2}T\d{2}:\d{2}:\d{2}(?:\.\d+)?Z)"`)
 
@@ -166,7 +203,11 @@ func genClaimRace(t *rapid.T, w *World, pre *Snapshot, n int) []Op {
 			ops = append(ops, op)
 			continue
 		}
-		if pct(t, 14, "race.rewrite") {
+		rewritePct := 14
+		if schedLegacy {
+			rewritePct = 50 // a legacy-named log is what a compaction might want to "migrate"
+		}
+		if pct(t, rewritePct, "race.rewrite") {
 			// the whole-file rewrites and the bulk delete race with claims too
 			op.Kind = oneOf(t, []string{"compact", "compact", "prune_yes"}, "race.rewrite.kind")
 			ops = append(ops, op)
@@ -230,6 +271,8 @@ type schedSpec struct {
 	maxN       int
 	setup      Profile
 	extra      func(pre, final *Snapshot, cmds []ConcCmd) []string
+	// longLogPct: percent of cases whose log holds hundreds of edits of one item
+	longLogPct int
 	// clockPct: percent of cases whose store has unusual time stamps (whole log two hours
 	// ahead, or ready tasks created within one second)
 	clockPct int
@@ -322,6 +365,7 @@ func runSchedTest(t *testing.T, sp schedSpec) {
 				}
 			}
 			pre = w.applyClockPre(pre, sc.FutureLog, sc.CraftedTasks)
+			pre = w.applyLongLog(pre, sc.LongLog)
 			if sc.LockMissing {
 				os.Remove(filepath.Join(w.Root, ".ergo", "lock"))
 			}
@@ -422,6 +466,12 @@ func runSchedTest(t *testing.T, sp schedSpec) {
 			}
 			pre = w.applyClockPre(pre, futureLog, craftedTasks)
 		}
+		longLog := 0
+		if sp.longLogPct > 0 && pct(rt, sp.longLogPct, "long.log") {
+			longLog = between(rt, 260, 400, "long.log.n")
+			pre = w.applyLongLog(pre, longLog)
+			stats.Label("log_with_hundreds_of_edits_of_one_item")
+		}
 		lockMissing := pct(rt, 20, "lock.missing")
 		if lockMissing {
 			os.Remove(filepath.Join(w.Root, ".ergo", "lock"))
@@ -442,6 +492,7 @@ func runSchedTest(t *testing.T, sp schedSpec) {
 			stats.Label("stale_temp_file_at_start")
 		}
 		pc.apply(w.Root)
+		schedLegacy = pc.Legacy
 		if pc.OldLock {
 			stats.Label("lock_file_hours_old")
 		}
@@ -542,6 +593,17 @@ func runSchedTest(t *testing.T, sp schedSpec) {
 					}
 					actions = append(actions, SchedAction{"resume", a}, SchedAction{"resume", a})
 					stats.Label("schedule.lock_holder_template")
+					if pct(rt, 30, "holder.enolck") {
+						// one of the others finds the kernel out of lock records (ENOLCK) while the
+						// holder is inside: "cannot lock" must not become "need not lock"
+						for i := range cmds {
+							if i != a && cmds[i].Op.Kind != "init" {
+								cmds[i].Park = &Inject{Syscall: "flock", When: 1, Kind: "error", Errno: oneOf(rt, []string{"ENOLCK", "ENOLCK", "EINTR", "ENOSYS"}, "holder.errno")}
+								stats.Label("schedule.flock_fails_for_a_bystander")
+								break
+							}
+						}
+					}
 				}
 			case tpl < 24 && n >= 2:
 				// held-lock-in-the-gap template: command b is stopped somewhere before its LAST
@@ -603,7 +665,7 @@ func runSchedTest(t *testing.T, sp schedSpec) {
 			}
 		}
 		if len(viol) > 0 {
-			WriteReplay(replayPath, SchedCase{Property: sp.prop, Engine: "SCHED", Test: sp.test, Setup: setup, Cmds: cmds, Actions: actions, Violations: viol, LockMissing: lockMissing, BigLogMB: bigMB, TornTail: pc.TornTail, OldLock: pc.OldLock, Legacy: pc.Legacy, StaleTmp: pc.StaleTmp, FutureLog: futureLog, CraftedTasks: craftedTasks})
+			WriteReplay(replayPath, SchedCase{Property: sp.prop, Engine: "SCHED", Test: sp.test, Setup: setup, Cmds: cmds, Actions: actions, Violations: viol, LockMissing: lockMissing, BigLogMB: bigMB, TornTail: pc.TornTail, OldLock: pc.OldLock, Legacy: pc.Legacy, StaleTmp: pc.StaleTmp, FutureLog: futureLog, CraftedTasks: craftedTasks, LongLog: longLog})
 			rt.Fatalf("%s violated: %v", sp.prop, viol)
 		}
 		stats.Eval()
@@ -652,7 +714,7 @@ func TestC01(t *testing.T) {
 	runSchedTest(t, schedSpec{
 		prop: "C01", test: "TestC01",
 		rule:   "a generated store (short random history) and 2-4 concurrent commands - mostly `claim` (with / without --epic) plus disturbers that reopen, finish, move or create tasks or rewrite the log (`set`, `new task`, `prune --yes`, `compact`) -, on a store whose time stamps are in a quarter of the cases unusual (the whole log two hours ahead of the clock, or 2-5 ready tasks created within one second, stamps written with and without trailing digits), each optionally parked by the controller right after a drawn system call on the store's files (strace SIGSTOP injection) and resumed at a drawn later moment, or all free-running; oracle: some serial order consistent with real time in which every successful claim returns the model's oldest ready task at that position and the final state matches, lock-busy claims contribute nothing, no id is handed out twice; non-trivial = executions overlap and at least one park landed (or free-running); distinct = (commands, park points, controller schedule)",
-		genOps: genClaimRace, minN: 2, maxN: 4, setup: claimSetup, bigLogPct: 14, clockPct: 24,
+		genOps: genClaimRace, minN: 2, maxN: 4, setup: claimSetup, bigLogPct: 14, clockPct: 24, longLogPct: 9,
 		extra: func(pre, final *Snapshot, cmds []ConcCmd) []string {
 			var out []string
 			seen := map[string]int{}
